@@ -12,9 +12,14 @@ if os.path.exists(p):
 hooks_p = os.path.join(V, "registry", "_hooks.json")
 hooks = json.load(open(hooks_p)) if os.path.exists(hooks_p) else {"source_commits": []}
 checks, na, engines = [], [], {}
+ready_p = os.path.join(V, "registry", "_ready.json")
+ready = set(json.load(open(ready_p))) if os.path.exists(ready_p) else None
 for pr in props:
     pid = pr["id"]
     rp = os.path.join(V, "registry", pid + ".json")
+    if os.path.exists(rp) and ready is not None and pid not in ready:
+        na.append({"property_id": pid, "reason": reasons.get(pid, "check under construction: model, theorems and harness exist in /verif but are not yet validated on the unchanged tree (not claimed until they are)")})
+        continue
     if not os.path.exists(rp):
         na.append({"property_id": pid, "reason": reasons.get(pid, "no check built yet for this property (work in progress; see DESIGN.md section 5 for the plan)")})
         continue
